@@ -211,7 +211,7 @@ pub fn run(name: &str, args: &Args) -> Option<Report> {
             guarded(&mut rep, name, "C13", seed, start, |rep| c13::run(seed, start, iters, rep));
         }
         "c13abi" => c13::abi_sweep::run(args.seed, args.start, args.iters, &mut rep),
-        "c10" => c10::run(args.seed, args.start, args.iters, &mut rep),
+        "c10" => c10::run(args.seed, args.start, args.iters, &mut rep, args.param("noexhaustive").is_none() && !cfg!(miri)),
         "c08wrap" => {
             for i in args.start..args.start + args.iters {
                 let cycles: u64 = args.param("cycles").and_then(|c| c.parse().ok()).unwrap_or(70_000);
